@@ -454,9 +454,15 @@ impl<'a> Scan<'a> {
                 self.emit(ln, "usize_sens", format!("{}::<{}>", text, t));
             }
         }
+        // a bare lower-case identifier (`offset`, `cast`, `collect` used as a local variable / parameter name) is
+        // not a call of the like-named method: method calls and qualified paths are reported, bare names are not
+        let bare = segs.len() == 1 && !leading;
         for (i, s) in segs.iter().enumerate() {
             let upto = format!("{}{}", lead, segs[..=i].join("::"));
             let cd = if i > 0 || leading { Some(upto.as_str()) } else { None };
+            if bare && (PTR_NAMES.contains(&s.as_str()) || ALLOC_METHODS.contains(&s.as_str())) {
+                continue;
+            }
             self.name_facts(s, ln, cd);
         }
     }
